@@ -55,6 +55,21 @@ def run_tables(prog, rep):
         okv = want is not None and got > 0 and abs(math.log10(got) - SI[k]) < 1e-9
         rule.check(okv, 'PREFIX_FACTORS|%s' % k, where, 'nix::util::PREFIX_FACTORS', 'factor(%s) = 1e%d' % (k, SI.get(k, 0)),
                    'factor(%s) = %r, expected 1e%s' % (k, got, SI.get(k)))
+    # the grammar [prefix] unit is unambiguous: no text has two decompositions (whichever one splitUnit picks,
+    # the other reading's prefix relation - e.g. cd ~ mcd - is lost)
+    amb = []
+    parses = {}
+    for u in ua:
+        parses.setdefault(u, []).append(('', u))
+    for pfx in pa:
+        for u in ua:
+            parses.setdefault(pfx + u, []).append((pfx, u))
+    for text, ps in sorted(parses.items()):
+        if len(set(ps)) > 1:
+            amb.append('"%s" = %s' % (text, ' = '.join('%s+%s' % x if x[0] else x[1] for x in sorted(set(ps)))))
+    rule.check(not amb, 'UNITS|unambiguous', '%s:%s' % (prog.rel(vu['file']), vu['line']), 'nix::util::UNITS',
+               'no text is both a unit and prefix+unit, or two different prefix+unit pairs (%d texts)' % len(parses),
+               'ambiguous unit texts: %s: the units that differ from it only by prefix are no longer scalable to it' % '; '.join(amb[:6]))
     # which alternations are used with regex_search (Perl leftmost / first alternative wins)?
     searched = set()
     for fn in prog.funcs.values():
